@@ -25,6 +25,9 @@ def check(tier, seed, replay=None):
         cs, g, d = core.gen_cases(SPEC_DIR, "ConstGen.tla", "ConstGen.cfg", "constgen", workers=2)
         meta["ConstGen"] = {"cases": len(cs), "gen_states": d, "gen_transitions": g}
         cases += [{"id": f"const{i}", "text": c["text"]} for i, c in enumerate(cs)]
+        cs, g, d = core.gen_cases(SPEC_DIR, "RowGen.tla", "RowGen.cfg", "rowgen", workers=2)
+        meta["RowGen"] = {"cases": len(cs), "gen_states": d, "gen_transitions": g}
+        cases += [{"id": f"row{i}", "text": c["text"]} for i, c in enumerate(cs)]
         raw = []
         for cfg, n in (("All5.cfg", 2500), ("Ops3.cfg", 1500), ("UnPar.cfg", 500)):
             cs, g, d = core.gen_cases(parse.SPEC_DIR, "TokGen.tla", cfg, "tok" + cfg[:-4], workers=8)
@@ -64,7 +67,7 @@ def check(tier, seed, replay=None):
         "samples": samples or [{"note": "none"}],
         "evaluations": len(events),
         "distinct_nontrivial": changed,
-        "rule": "one event = one source text (TokGen expression strings in two spellings, incl. every parenthesised shape up to 5 tokens; constant declarations of every literal kind and names with underscores / escapes / string indexes from spec/format/ConstGen.tla; hand-written programs"
+        "rule": "one event = one source text (TokGen expression strings in two spellings, incl. every parenthesised shape up to 5 tokens; constant declarations of every literal kind and names with underscores / escapes / string indexes from spec/format/ConstGen.tla; every form of a row - comparison / bare assertion x unnamed / named / index-named x not iterated / one / two indexes - from spec/format/RowGen.tla; hand-written programs"
                 " with blocks, iterations, graphs, indexed/escaped names, all declaration forms) formatted by the real formatter, formatted again, both compiled;"
                 " non-trivial = formatting changed the text",
         "exhaustive": tier == "thorough" and not replay,
